@@ -11,6 +11,13 @@
   completion order.
 * Results and exceptions cross the "process boundary" pickled.
 
+* The process boundary is real in one more respect: the tasks of a pool run in ONE
+  worker process forked from the caller when the pool receives its first task, as
+  the workers of a real pool are. The worker therefore sees the caller's state as
+  it was at that moment (a pool kept alive across calls answers with a stale
+  image), and whatever a task changes stays in the worker. Which task the worker
+  executes next is still the scheduler's decision, so a seed is one execution.
+
 Executor.map is inherited from the standard library, so code that relies on
 "map yields in submission order whatever the completion order" is exercised.
 """
@@ -18,8 +25,11 @@ Executor.map is inherited from the standard library, so code that relies on
 from __future__ import annotations
 
 import concurrent.futures as cf
+import os
 import pickle
+import struct
 from concurrent.futures import Executor, Future
+from concurrent.futures.process import BrokenProcessPool
 
 
 class SimFuture(Future):
@@ -50,6 +60,8 @@ class SimPoolState:
         self.pools_created = 0
         self.out_of_order = 0
         self.max_workers_seen: list = []
+        self.workers: list = []  # live worker processes (pid, read fd, write fd) of all pools of the run
+        self.stale_worker_tasks = 0
 
     def pick(self, window: int) -> int:
         if not self.schedule:
@@ -73,8 +85,8 @@ class SimPool(Executor):
         self._state = _STATE if _STATE is not None else SimPoolState()
         self._state.pools_created += 1
         self._state.max_workers_seen.append(max_workers)
-        # initializer/initargs reach real workers by inheritance (fork), not by pickling; nothing
-        # to run here: there are no worker processes whose state it would set up
+        self._initializer, self._initargs = initializer, initargs
+        self._worker = None  # (pid, rfd, wfd) once the first task arrived
 
     def submit(self, fn, /, *args, **kwargs):
         if self._shutdown:
@@ -90,6 +102,70 @@ class SimPool(Executor):
         self._submitted += 1
         return fut
 
+    # -- the worker process ------------------------------------------------
+    def _start_worker(self) -> None:
+        c2w_r, c2w_w = os.pipe()
+        w2c_r, w2c_w = os.pipe()
+        pid = os.fork()
+        if pid == 0:
+            try:
+                keep = {c2w_r, w2c_w}
+                for fd in range(3, 512):
+                    if fd not in keep:
+                        try:
+                            os.close(fd)
+                        except OSError:
+                            pass
+                if self._initializer is not None:
+                    self._initializer(*self._initargs)
+                while True:
+                    head = _read_exact(c2w_r, 8)
+                    if head is None:
+                        break
+                    blob = _read_exact(c2w_r, struct.unpack("<Q", head)[0])
+                    try:
+                        fn, args, kwargs = pickle.loads(blob)
+                        out = pickle.dumps(("ok", fn(*args, **kwargs)))
+                    except BaseException as e:  # noqa: BLE001
+                        try:
+                            out = pickle.dumps(("err", e))
+                        except Exception:  # noqa: BLE001
+                            out = pickle.dumps(("err", RuntimeError(f"{type(e).__name__}: {e}")))
+                    os.write(w2c_w, struct.pack("<Q", len(out)))
+                    _write_all(w2c_w, out)
+            finally:
+                os._exit(0)
+        os.close(c2w_r)
+        os.close(w2c_w)
+        self._worker = (pid, w2c_r, c2w_w)
+        self._state.workers.append(self._worker)
+
+    def _remote(self, blob: bytes):
+        if self._worker is None:
+            self._start_worker()
+        pid, rfd, wfd = self._worker
+        try:
+            os.write(wfd, struct.pack("<Q", len(blob)))
+            _write_all(wfd, blob)
+            head = _read_exact(rfd, 8)
+            data = _read_exact(rfd, struct.unpack("<Q", head)[0]) if head is not None else None
+        except OSError:
+            data = None
+        if data is None:
+            raise BrokenProcessPool("the simulated worker process terminated abruptly")
+        kind, val = pickle.loads(data)
+        if kind == "err":
+            raise val
+        return val
+
+    def _stop_worker(self) -> None:
+        if self._worker is None:
+            return
+        _reap(self._worker)
+        if self._worker in self._state.workers:
+            self._state.workers.remove(self._worker)
+        self._worker = None
+
     # -- scheduler ---------------------------------------------------------
     def _run_one(self) -> None:
         window = min(self._max_workers, len(self._queue))
@@ -102,9 +178,7 @@ class SimPool(Executor):
         if not fut.set_running_or_notify_cancel():
             return
         try:
-            fn, args, kwargs = pickle.loads(blob)
-            res = fn(*args, **kwargs)
-            res = pickle.loads(pickle.dumps(res))
+            res = self._remote(blob)
         except BaseException as e:  # noqa: BLE001 - delivered through the future
             fut.seq = self._state.completed
             self._state.completed += 1
@@ -131,6 +205,37 @@ class SimPool(Executor):
         # a real pool finishes queued work even with wait=False; do it now so that
         # no future stays pending forever in a world without background threads
         self._pump_all()
+        self._stop_worker()
+
+
+def _read_exact(fd: int, n: int):
+    buf = b""
+    while len(buf) < n:
+        chunk = os.read(fd, n - len(buf))
+        if not chunk:
+            return None
+        buf += chunk
+    return buf
+
+
+def _write_all(fd: int, data: bytes) -> None:
+    view = memoryview(data)
+    while len(view):
+        k = os.write(fd, view[:65536])
+        view = view[k:]
+
+
+def _reap(worker) -> None:
+    pid, rfd, wfd = worker
+    for fd in (wfd, rfd):
+        try:
+            os.close(fd)
+        except OSError:
+            pass
+    try:
+        os.waitpid(pid, 0)
+    except (ChildProcessError, OSError):
+        pass
 
 
 def _sim_as_completed(fs, timeout=None):
@@ -202,6 +307,10 @@ def uninstall() -> None:
     global _STATE
     import swcgeom.core.population as popmod
 
+    if _STATE is not None:
+        for wk in list(_STATE.workers):  # pools that were never shut down: their workers end with the run
+            _reap(wk)
+        _STATE.workers.clear()
     if "cf.PPE" in _REAL:
         for mod, attr, real in _REAL.get("swapped", []):
             setattr(mod, attr, real)
